@@ -215,6 +215,7 @@ pub fn run(r: &Report) {
             rich: false,
             short_unwrap: false,
             shared_lines: false,
+            shared_pairs: vec![],
         },
         Tier::Thorough => AstParams {
             max_lines: 7,
@@ -229,6 +230,7 @@ pub fn run(r: &Report) {
             rich: false,
             short_unwrap: false,
             shared_lines: false,
+            shared_pairs: vec![],
         },
     };
     let sps = spellings(r.tier);
